@@ -5,7 +5,7 @@ Line-protocol front end of the C02 model (requests after the leading `C02` field
 
   run <mainLocals> <fuel> <program>     program := space-separated S-expression tokens
      (prog s…)  s,e := (i N) (n) (F) (ch) (v x) (+ a b) (fn name (p…) s…) (c f a…) (l e…)
-                       (x e i) (m e…) (k e i) (r kind a…) (d x e) (a x e) (ret e)
+                       (x e i) (m e…) (k e i) (r kind a…) (d x e) (a x e) (ret e) (retif c e)
                        (+= x e) (-= x e) (++ x) (-- x) (ma (x…) e) (md (x…) e)
                        (if c (b s…) (b s…)) (sw e (case K s…)… (default s…))
                        (loop kind (x…) N (item…) (b s…))   kind := for3 cond range1 range2 forin once
@@ -22,6 +22,9 @@ Line-protocol front end of the C02 model (requests after the leading `C02` field
      8 locals) | r (return) | a (error exit) | m:<idx>:<back> (MakeCell) | sf:<idx>:<v> | lf:<idx> |
      sF:<cell>:<v> | lF:<cell>; reply: ok TAB <loads of the frame machine> TAB <loads of the variable
      machine> TAB <cells as addr:activation,…>   or   stuck TAB <frames|-> TAB <vars|->
+  chain <v:w…>         a recursion chain (`recChain`): per level its value and 0|1 (more than 8 locals); every
+     level stores its value in local 0 and makes a cell for it, all return, the cells are read in order;
+     reply: ok TAB <loads of the frame machine> TAB <loads of the variable machine> TAB <number of operations>
 -/
 namespace Risor.C02
 
@@ -92,6 +95,7 @@ def toTm : Nat → SExp → Option Tm
     | "ma", [.list xs, e] => do pure (.massign (← atomsOf xs) (← toTm n e))
     | "md", [.list xs, e] => do pure (.mdecl (← atomsOf xs) (← toTm n e))
     | "ret", [e] => do pure (.ret (← toTm n e))
+    | "retif", [c, e] => do pure (.retif (← toTm n c) (← toTm n e))
     | "if", [c, .list (.atom "b" :: t), .list (.atom "b" :: e)] => do
       pure (.ifte (← toTm n c) (← toTms n t) (← toTms n e))
     | "sw", subj :: cases => do pure (.switch (← toTm n subj) (← toTms n cases))
@@ -151,6 +155,12 @@ def parseFOp (s : String) : Option FOp :=
   | ["lF", c] => c.toNat?.map FOp.loadFree
   | _ => none
 
+/-- one level of a recursion chain: `<value>:<0|1>` (1 = more than 8 locals) -/
+def parseLevel (s : String) : Option (Int × Bool) :=
+  match s.splitOn ":" with
+  | [v, w] => v.toInt?.map fun v => (v, w == "1")
+  | _ => none
+
 def showInts (xs : List Int) : String :=
   if xs.isEmpty then "-" else ",".intercalate (xs.map toString)
 
@@ -195,6 +205,13 @@ def handle : List String → String
           (if s.cells.isEmpty then "-" else ",".intercalate (s.cells.map fun c => toString c.addr ++ ":" ++ toString c.act))
       | a, b => "stuck\t" ++ (if a.isSome then "-" else "frames") ++ "\t" ++ (if b.isSome then "-" else "vars")
     | none => "error\tbad-op"
+  | "chain" :: lvls =>
+    match lvls.mapM parseLevel with
+    | some vs =>
+      match FM.run FM.init (recChain vs), VarM.run VarM.init (recChain vs) with
+      | some s, some t => "ok\t" ++ showInts s.out.reverse ++ "\t" ++ showInts t.out.reverse ++ "\t" ++ toString (recChain vs).length
+      | _, _ => "stuck"
+    | none => "error\tbad-level"
   | _ => "error\tunknown-request"
 
 end Risor.C02
